@@ -122,13 +122,17 @@ def Verdict.name : Verdict → String
 
 /-- The property-relevant steps of `HandleStream`, in source order. -/
 inductive Stage
-  | readHeader | tryContains | checkPrefix | identity | openFixed | readClock | parseFixed | addSalt | readBody
+  | readHeader | tryContains | checkPrefix | identity | openFixed | readClock | parseFixed | addSalt
+  /-- `n = 0`: "Connection is authenticated. Fallback is no longer an option." -/
+  | commit
+  | readBody
 deriving Repr, DecidableEq
 
 def Stage.ofName : String → Option Stage
   | "readHeader" => some .readHeader | "tryContains" => some .tryContains | "checkPrefix" => some .checkPrefix
   | "identity" => some .identity | "openFixed" => some .openFixed | "readClock" => some .readClock
-  | "parseFixed" => some .parseFixed | "addSalt" => some .addSalt | "readBody" => some .readBody
+  | "parseFixed" => some .parseFixed | "addSalt" => some .addSalt | "commit" => some .commit
+  | "readBody" => some .readBody
   | _ => none
 
 /-- One stage: new pool and, if the stage ends the handshake, the verdict. `now` is the single
@@ -145,6 +149,7 @@ def stageStep (P : Params) (contended : Bool) (now : Nat) (r : Request) (pool : 
                           else if tsValid P r.ts now then none else some .badTimestamp)
   | .addSalt => let res := add P now r.salt pool
                 (res.1, if res.2 then none else some .repeatedSalt)
+  | .commit => (pool, none)
   | .readBody => (pool, if r.bodyOk then none else some .lateError)
 
 def runStages (P : Params) (contended : Bool) (now : Nat) (r : Request) : List Stage → Pool → Pool × Verdict
@@ -157,12 +162,42 @@ def runStages (P : Params) (contended : Bool) (now : Nat) (r : Request) : List S
 /-- `HandleStream`, first half: everything before `now := time.Now()` (reads the pool once, under `RLock`). -/
 def phase1Stages : List Stage := [.readHeader, .tryContains, .checkPrefix, .identity, .openFixed]
 /-- `HandleStream`, second half: clock reading, header parse, `Add` (atomic), body. -/
-def phase2Stages : List Stage := [.readClock, .parseFixed, .addSalt, .readBody]
+def phase2Stages : List Stage := [.readClock, .parseFixed, .addSalt, .commit, .readBody]
 def handleStages : List Stage := phase1Stages ++ phase2Stages
 
 /-- The accept logic of `HandleStream` for one presentation at instant `now`. -/
 def handle (P : Params) (contended : Bool) (now : Nat) (r : Request) (pool : Pool) : Pool × Verdict :=
   runStages P contended now r handleStages pool
+
+/-! ## The fallback (`UnsafeFallbackAddr`)
+
+The deferred function of `HandleStream`: an error turns into a *fallback request* (the bytes read so far are handed
+to the configured fallback address, `err = nil`) iff a fallback address is configured and `n > 0`, where `n` is the
+number of bytes the first read delivered — and `n` is set to 0 right after `Add` succeeded (stage `commit`), so an
+error after that point (`lateError`) stays an error.
+-/
+
+inductive Outcome
+  /-- a request of the genuine client is returned -/
+  | accepted
+  /-- the connection is handed to the fallback address; `cause` is the swallowed error -/
+  | fallback (cause : Verdict)
+  | error (cause : Verdict)
+deriving Repr, DecidableEq
+
+def Outcome.name : Outcome → String
+  | .accepted => "accept" | .fallback v => "fallback:" ++ v.name | .error v => v.name
+
+/-- `fb`: a fallback address is configured; `gotBytes`: the first read delivered at least one byte (`n > 0`). -/
+def outcome (fb gotBytes : Bool) : Verdict → Outcome
+  | .accepted => .accepted
+  | .lateError => .error .lateError
+  | v => if fb && gotBytes then .fallback v else .error v
+
+/-- `HandleStream` including its deferred fallback decision. -/
+def handleStream (P : Params) (fb gotBytes contended : Bool) (now : Nat) (r : Request) (pool : Pool) : Pool × Outcome :=
+  let res := handle P contended now r pool
+  (res.1, outcome fb gotBytes res.2)
 
 /-! ## Histories on a monotone clock -/
 
